@@ -265,6 +265,9 @@ func (simTransport) RoundTrip(req *http.Request) (*http.Response, error) {
 	if directRT != nil {
 		return directRoundTrip(req, body)
 	}
+	if f := c08FreeRT; f != nil {
+		return f(req, body)
+	}
 	w := theWorld
 	if w == nil {
 		return nil, errors.New("no simulation world")
